@@ -35,7 +35,7 @@ Fields == { <<"Evt", "met", "Int">>, <<"Evt", "n", "Int">>, <<"Evt", "jets", "Se
 
 (* ------------------------------------------------------------------ *)
 (* production families                                                *)
-Binders == CASE Fam \in {"fuse1", "chain1"} -> {"x"}
+Binders == CASE Fam \in {"fuse1", "chain1", "md1"} -> {"x"}
              [] OTHER -> {"x", "y"}
 
 Enabled(prod) ==
@@ -58,7 +58,13 @@ Enabled(prod) ==
                                     "Add", "Cmp", "First"}
       [] Fam \in {"chain", "chain1"} ->
                           prod \in {"Select", "Where", "SelectMany", "Cmp", "Add", "Pack", "Count"}
-      [] Fam = "all"   -> TRUE
+      [] Fam = "meth"  -> prod \in {"Select", "Where", "SelectMany", "First", "Count", "Cmp", "Add", "Sum",
+                                    "MethArgs", "OtherMeth", "KwOp"}
+      [] Fam = "agg2"  -> prod \in {"Select", "Where", "Count", "Len", "Sum", "Max", "Min", "Add", "Cmp",
+                                    "AggOdd", "First"}
+      [] Fam = "md1"   -> prod \in {"Select", "Where", "Count", "Cmp", "MD"}
+      [] Fam = "md"    -> prod \in {"Select", "Where", "SelectMany", "Count", "Cmp", "Add", "MD", "First"}
+      [] Fam = "all"   -> prod \notin {"OtherMeth", "KwOp", "AggOdd", "MD", "OutIdx", "AbsentKey"}
       [] OTHER -> FALSE
 
 (* ------------------------------------------------------------------ *)
@@ -94,11 +100,15 @@ Split3(r) == {<<q[1], q[2], r - q[1] - q[2]>> : q \in {w \in (0..r) \X (0..r) : 
 
 Push(ns, x) == Append(ns, x)
 
+(* function form Op(src, args) and, in the method-form families, src.Op(args) *)
+MethForm == Fam \in {"meth"}
+Forms(op, src, rest) == {Fn(op, <<src>> \o rest)} \cup (IF MethForm THEN {Meth(src, op, rest)} ELSE {})
+
 (* lambda-taking operator:  Op(hole srcSort, lambda x: hole bodySort) *)
 OpProd(op, srcSort, elemSort, bodySort, r, ns, ss) ==
-    {Fn(op, <<Hole(srcSort, sp[1], ns, ss),
-              Lam1(x, Hole(bodySort, sp[2], Push(ns, x), Append(ss, SortT(elemSort))))>>) :
-        sp \in Split2(r), x \in Binders}
+    UNION {Forms(op, Hole(srcSort, sp[1], ns, ss),
+                 <<Lam1(x, Hole(bodySort, sp[2], Push(ns, x), Append(ss, SortT(elemSort))))>>) :
+              sp \in Split2(r), x \in Binders}
 
 NonLeaf(h) ==
     LET s == h.s   b == h.n   ns == h.p   ss == h.a   r == b - 1 IN
@@ -133,7 +143,7 @@ NonLeaf(h) ==
        ELSE {}) \cup
       (* ---- elements ---- *)
       (IF s \in ElemSorts /\ Enabled("First") THEN
-          {Fn("First", <<Hole(SeqOf(s), r, ns, ss)>>)} ELSE {}) \cup
+          Forms("First", Hole(SeqOf(s), r, ns, ss), <<>>) ELSE {}) \cup
       (IF s \in ElemSorts \cup {"Bool"} \cup SeqSorts /\ Enabled("Beta") THEN
           {CallP(Lam1(x, Hole(s, sp[2], Push(ns, x), Append(ss, SortT(y)))),
                  <<Hole(y, sp[1], ns, ss)>>) :
@@ -151,10 +161,31 @@ NonLeaf(h) ==
        ELSE {}) \cup
       (* ---- integers ---- *)
       (IF s = "Int" /\ Enabled("Count") THEN
-          {Fn("Count", <<Hole(SeqOf(y), r, ns, ss)>>) : y \in ElemSorts} ELSE {}) \cup
+          UNION {Forms("Count", Hole(SeqOf(y), r, ns, ss), <<>>) : y \in ElemSorts} ELSE {}) \cup
       (IF s = "Int" /\ Enabled("Len") THEN
           {Fn("len", <<Hole(SeqOf(y), r, ns, ss)>>) : y \in {"Jet", "Int"}} ELSE {}) \cup
-      (IF s = "Int" /\ Enabled("Sum") THEN {Fn("Sum", <<Hole("SeqInt", r, ns, ss)>>)} ELSE {}) \cup
+      (IF s = "Int" /\ Enabled("Sum") THEN Forms("Sum", Hole("SeqInt", r, ns, ss), <<>>) ELSE {}) \cup
+      (IF s = "Int" /\ Enabled("AggOdd") THEN
+          {IfExp(BoolC(TRUE), Hole("Int", sp[1], ns, ss), Fn(op, <<Hole("SeqInt", sp[2], ns, ss), IntC(1)>>)) :
+              op \in {"Sum", "Count", "Max", "len"}, sp \in Split2(r)} \cup
+          {IfExp(BoolC(TRUE), Hole("Int", r, ns, ss), x) :
+              x \in {Name("Sum"), Name("Count"), Fn("Count", <<>>), Fn("Min", <<>>)}} \cup
+          {Meth(Hole("SeqInt", r, ns, ss), op, <<>>) : op \in {"Sum", "Count", "Max", "Min"}} \cup
+          {IfExp(BoolC(TRUE), Hole("Int", r, ns, ss), Meth(Name("ds"), "len", <<>>))}
+       ELSE {}) \cup
+      (IF s \in SeqSorts /\ Enabled("OtherMeth") THEN
+          UNION {{Meth(Hole(SeqOf(y), sp[1], ns, ss), "Foo",
+                       <<Lam1(x, Hole(Elem(s), sp[2], Push(ns, x), Append(ss, SortT(y))))>>) :
+                     sp \in Split2(r), x \in Binders} : y \in {"Jet"}}
+       ELSE {}) \cup
+      (IF s \in SeqSorts /\ Enabled("KwOp") THEN
+          {CallK(Attr(Hole(s, sp[1], ns, ss), "Where"), <<>>, <<"filter">>,
+                 <<Lam1(x, Hole("Bool", sp[2], Push(ns, x), Append(ss, SortT(Elem(s)))))>>) :
+              sp \in Split2(r), x \in {"x"}}
+       ELSE {}) \cup
+      (IF s \in SeqSorts /\ Enabled("MD") THEN
+          {Fn("MetaData", <<Hole(s, r, ns, ss), d>>) : d \in {Dct(<<>>), Dct(<<StrC("m"), IntC(1)>>)}}
+       ELSE {}) \cup
       (IF s = "Int" /\ Enabled("Max") THEN {Fn("Max", <<Hole("SeqInt", r, ns, ss)>>)} ELSE {}) \cup
       (IF s = "Int" /\ Enabled("Min") THEN {Fn("Min", <<Hole("SeqInt", r, ns, ss)>>)} ELSE {}) \cup
       (IF s = "Int" /\ Enabled("Add") THEN
